@@ -19,6 +19,7 @@ def main():
     ap = argparse.ArgumentParser()
     ap.add_argument("--patch")
     ap.add_argument("--revert")
+    ap.add_argument("--clean", action="store_true", help="no change at all: run the checks against an unchanged scratch copy (serialised with the other self-tests)")
     ap.add_argument("--props", required=True)
     ap.add_argument("--tier", default="quick")
     ap.add_argument("--seed", default=None)
@@ -32,7 +33,9 @@ def main():
     src = os.path.join(scratch, "src")
     try:
         subprocess.run(["git", "-C", "/repo", "worktree", "add", "--detach", "-q", src, "HEAD"], check=True)
-        if a.patch:
+        if a.clean:
+            r = subprocess.run(["true"], capture_output=True, text=True)
+        elif a.patch:
             r = subprocess.run(["git", "-C", src, "apply", os.path.abspath(a.patch)], capture_output=True, text=True)
         else:
             d = subprocess.run(["git", "-C", "/repo", "diff", a.revert + "^", a.revert], capture_output=True, text=True).stdout
